@@ -775,8 +775,11 @@ func (vm *VirtualMachine) pop() object.Object {
 }
 
 func (vm *VirtualMachine) push(obj object.Object) {
+	// Store before moving the stack pointer: if the stack is full the store
+	// panics and sp still points at the last valid slot, so the frames that
+	// are unwound afterwards can pop and restore their state.
+	vm.stack[vm.sp+1] = obj
 	vm.sp++
-	vm.stack[vm.sp] = obj
 }
 
 func (vm *VirtualMachine) swap(pos int) {
